@@ -560,3 +560,27 @@ Proof.
     with (FilterIndexSpec.rows_of (len f0) (f0 :: t)); [reflexivity|].
   unfold FilterIndexSpec.rows_of, FilterIndexSpec.row_at, len. rewrite Nat2Z.id. reflexivity.
 Qed.
+
+(* on a sorted index the pre-grouped aggregate IS the group-wise reference of the dataframe group-by *)
+Theorem session_aggregate_sorted_pf a index target dest :
+  column_okb index = true -> len target = len (index_rows index) ->
+  rows_sortedb bytes_ltb (index_rows index) = true ->
+  let r := agg_ref (agg_scalar a) (index_rows index) target in
+  session_aggregate a index target dest = Ok (r, write_dest dest r).
+Proof.
+  intros Hok Hl Hs r. apply session_aggregate_correct_pf; [exact Hok|].
+  unfold session_aggregate_ref. cbn zeta. rewrite Hl, Z.eqb_refl, Hs. cbn [negb]. f_equal.
+  apply agg_ref_ext. intros l. apply agg_cells_scalar.
+Qed.
+
+(* the loop body for a column of the frame (what Props/C07.v states) *)
+Theorem agg_one_col cols by_ hint kr a t f :
+  groupby_pre cols by_ hint = true -> key_rows cols by_ = Some kr -> lookup t cols = Some f ->
+  agg_one a (gb_of by_ hint kr) f = Ok (dest_col f (agg_ref (agg_cells a) kr (field_cells f))).
+Proof.
+  intros Hpre Hkr Hl. destruct (key_rows_kcs cols by_ kr Hkr) as [kcs [Hkc Hkr']].
+  destruct (lookup_in t cols f Hl) as [Hn _].
+  destruct (target_facts cols by_ hint kr Hpre Hkr t Hn) as [f' (Hl' & Hwf & Hlen)].
+  rewrite Hl in Hl'. inversion Hl'; subst f'.
+  exact (agg_one_any cols by_ hint kr kcs Hpre Hkc Hkr' a f Hwf Hlen).
+Qed.
